@@ -30,7 +30,7 @@ import (
 var c09Locs = []string{"A", "B", "C"}
 
 type c09op struct {
-	Kind string // addfact remfact addrule remrule parents event clear
+	Kind string // addfact remfact addrule remrule parents event clear addshared remshared
 	Loc  string
 	Ps   []string
 }
@@ -52,6 +52,10 @@ func c09Ops() []c09op {
 	}
 	for _, l := range c09Locs {
 		ops = append(ops, c09op{"addfact", l, nil}, c09op{"remfact", l, nil}, c09op{"addrule", l, nil}, c09op{"remrule", l, nil})
+	}
+	// a fact id used in more than one location (ids are unique within a location only)
+	for _, l := range []string{"A", "C"} {
+		ops = append(ops, c09op{"addshared", l, nil}, c09op{"remshared", l, nil})
 	}
 	// clearing a location also forgets its parent set (the set is a property fact)
 	ops = append(ops, c09op{"clear", "C", nil}, c09op{"clear", "B", nil})
@@ -143,7 +147,7 @@ func (in *c09inst) visibleFacts(x string, inherited bool) map[string]map[string]
 	}
 	for _, l := range locs {
 		for id, f := range in.facts[l] {
-			out[id] = f
+			out[l+"/"+id] = f // ids are unique within a location only
 		}
 	}
 	return out
@@ -154,7 +158,7 @@ func expectedFound(facts map[string]map[string]interface{}, pattern map[string]i
 	for _, id := range lib.SortedKeys(facts) {
 		bss, err := core.Matches(nil, lib.CopyMap(pattern), lib.CopyMap(facts[id]))
 		if err == nil && len(bss) > 0 {
-			out = append(out, id+"="+strings.Join(lib.BindingsSetN(bss), ";"))
+			out = append(out, id[strings.Index(id, "/")+1:]+"="+strings.Join(lib.BindingsSetN(bss), ";"))
 		}
 	}
 	sort.Strings(out)
@@ -247,6 +251,19 @@ func (in *c09inst) Apply(opi int) *lib.Violation {
 		} else {
 			in.facts[x]["f"+lc] = f
 		}
+	case "addshared":
+		f := map[string]interface{}{"k": x + "-shared"}
+		if _, err := in.world.AddFact(x, "s", f); err != nil {
+			res = fail(err)
+		} else {
+			in.facts[x]["s"] = f
+		}
+	case "remshared":
+		_, had := in.facts[x]["s"]
+		if err := in.world.RemFact(x, "s"); err != nil && had {
+			res = fail(err)
+		}
+		delete(in.facts[x], "s")
 	case "remfact":
 		_, had := in.facts[x]["f"+lc]
 		if err := in.world.RemFact(x, "f"+lc); err != nil && had {
